@@ -12,8 +12,14 @@ FEN_T = {"name": "fen", "stream": "fen", "driver": "walk", "shards": 16, "args":
 PROPS = {}
 
 PROPS["C06"] = {
-    "module": "RCE.Props.C06",
+    "module": "RCE.Props.C06src",
     "theorems": [
+        "RCE.Props.C06.knight_source_exact",
+        "RCE.Props.C06.king_source_exact",
+        "RCE.Props.C06.pawn_source_exact",
+        "RCE.Props.C06.ray_source_eq",
+        "RCE.Props.C06.rook_mask_source_eq",
+        "RCE.Props.C06.bishop_mask_source_eq",
         "RCE.Props.C06.rook_attacks_exact",
         "RCE.Props.C06.bishop_attacks_exact",
         "RCE.Props.C06.queen_attacks_exact",
